@@ -64,6 +64,11 @@ def _check_rx(ctx, w, what):
 
 
 def _check_store(ctx, w, what):
+    for k, obj in w.cb_objects.items():
+        if bytes(obj) != w.entries[k].cb[1]:
+            ctx.violation("C02/application-buffer-modified",
+                          "%s: the bytearray the read callback hands out for %04X:%02X was changed by the server: %s.. (%d bytes), the application holds %d bytes" % (
+                              what, k[0], k[1], bytes(obj)[:16].hex(), len(obj), len(w.entries[k].cb[1])))
     snap = w.store_snapshot()
     model = w.model_store()
     if snap != model:
